@@ -101,6 +101,7 @@ type sim struct {
 	takeWorkerRefusals func() []workerRefusal
 
 	droppedByReorg map[common.Hash]bool
+	droppedList    []common.Hash
 	invalidBlocks  map[common.Hash]string
 	facts          map[common.Hash]*blockFacts
 	mining         bool
@@ -428,6 +429,9 @@ func (s *sim) txFault() {
 	switch c.Weighted("tx-fault", []int{4, 2, 5}) {
 	case 0: // duplicate: the same signed bytes again (pending, included, dropped, whatever)
 		e := s.pickEntry(false)
+		if len(s.droppedList) > 0 && c.Chance("resubmit-dropped", 1, 3) {
+			e = s.reg[s.droppedList[c.Intn("dropped", len(s.droppedList))]]
+		}
 		if e == nil {
 			return
 		}
@@ -791,6 +795,9 @@ func (s *sim) forkEvent() bool {
 		for ob := oldHead; ob != nil && ob.NumberU64() > forkPoint; ob = s.B.Chain.GetBlock(ob.ParentHash(), ob.NumberU64()-1) {
 			for _, tx := range ob.Transactions() {
 				if !onNew[tx.Hash()] {
+					if !s.droppedByReorg[tx.Hash()] && s.reg[tx.Hash()] != nil {
+						s.droppedList = append(s.droppedList, tx.Hash())
+					}
 					s.droppedByReorg[tx.Hash()] = true
 					dropped++
 				}
